@@ -6,6 +6,7 @@ package main
 
 import (
 	"bytes"
+	"encoding/json"
 	"fmt"
 	"os"
 	"os/exec"
@@ -147,6 +148,18 @@ type nameTarget struct {
 	id    string
 }
 
+func swapCase(s string) string {
+	b := []byte(s)
+	for i := range b {
+		if b[i] >= 'a' && b[i] <= 'z' {
+			b[i] -= 32
+		} else if b[i] >= 'A' && b[i] <= 'Z' {
+			b[i] += 32
+		}
+	}
+	return string(b)
+}
+
 func caseVariant(r *rng.R, s string) string {
 	switch r.Intn(4) {
 	case 0:
@@ -204,6 +217,10 @@ func ferun(c *Ctx) {
 		// with -d; or above a `magefiles` directory that is its own module
 		layout := []string{"inside", "d-from-outside", "magefiles-own-module", "inside"}[(pi+r.Intn(2))%4]
 		startCwd, dflags := dir, []string{}
+		projRoot := dir
+		if layout == "magefiles-own-module" {
+			projRoot = filepath.Join(dir, "magefiles")
+		}
 		switch layout {
 		case "d-from-outside":
 			writeProject(dir, p)
@@ -384,6 +401,53 @@ func ferun(c *Ctx) {
 			impl := J{"calls": calls, "status": rr.status, "stop": classifyStop(rr), "listed": strings.Contains(rr.stdout, "Targets:")}
 			in := J{"op": "fe.run", "project": p, "fields": fields, "words": words, "conv": convRecord(words), "fail": fail, "ignoreDefault": ignoreDefault}
 			c.Emit(in, impl, "way="+way, fmt.Sprintf("targets=%d", nt), "stop="+fmt.Sprint(impl["stop"]), plat, fmt.Sprintf("foreign-files=%v", len(p.Foreign) > 0), "start="+layout)
+		}
+		// C07: a collision that appears later, in an imported package, after mage has a binary for these (unchanged)
+		// magefiles in its cache — and with a go build cache directory that does not exist yet
+		if c.Prop == "C07" && len(p.World) > 0 {
+			runAny(mageBin, env, "-l")
+			var p2 proj.Project
+			if b, err := json.Marshal(p); err == nil && json.Unmarshal(b, &p2) == nil {
+				p2.Foreign = p.Foreign
+				var paths []string
+				for path := range p2.World {
+					paths = append(paths, path)
+				}
+				sort.Strings(paths)
+				done := false
+				for _, path := range paths {
+					im := p2.World[path]
+					for fi := range im.Pkg.Files {
+						for _, d := range im.Pkg.Files[fi].Funcs {
+							if done || d.Recv != nil || d.TParams != "" || len(d.Name) < 2 {
+								continue
+							}
+							if ok, _ := proj.ValidSig(d); !ok || !proj.ExportedName(d.Name) {
+								continue
+							}
+							twin := d
+							twin.Name = d.Name[:1] + swapCase(d.Name[1:])
+							if twin.Name == d.Name {
+								continue
+							}
+							im.Pkg.Files[fi].Funcs = append(im.Pkg.Files[fi].Funcs, twin)
+							p2.World[path] = im
+							done = true
+						}
+					}
+				}
+				if done {
+					writeProject(projRoot, &p2)
+					env2 := append(append([]string{}, env...), "GOCACHE="+filepath.Join(c.Tmp, fmt.Sprintf("no-such-gocache-%d", pi)))
+					rr := runAny(mageBin, env2, "-l")
+					impl := J{"build": classifyMsg(strings.TrimPrefix(rr.stderr, "Error: ")), "status": rr.status}
+					if rr.status == 0 {
+						impl = J{"calls": parseCalls(rr.stdout), "status": 0, "stop": classifyStop(rr), "listed": strings.Contains(rr.stdout, "Targets:")}
+					}
+					dt, sy := docMaps(&p2)
+					c.Emit(J{"op": "fe.run", "project": &p2, "fields": commentFields(&p2), "words": []string{}, "conv": J{}, "docText": dt, "syn": sy}, impl, "late-collision", "start="+layout)
+				}
+			}
 		}
 		os.RemoveAll(dir)
 	}
